@@ -226,3 +226,34 @@ fn d13_gc_and_backup_interleaving_loses_a_block() {
         "a complete band references a block the collector removed: {errors:?}"
     );
 }
+
+/// D15 (C07): the local transport completes a zero-length file on a create-new write (so that the
+/// leftover of a killed write can be filled in). A concurrent writer that has just created the file
+/// and not yet written its content looks exactly like such a leftover: the second create-new write
+/// of the same path is then NOT refused. Schedule: A creates `b0000/BANDHEAD` (exclusive create, as
+/// `Protocol::write` does) -> B's create-new write of the same path returns Ok -> A writes its
+/// content. Both writers believe they own the band.
+#[tokio::test]
+async fn d15_create_new_write_is_not_refused_while_the_winner_is_mid_write() {
+    use conserve::transport::{Transport, WriteMode};
+    use std::io::Write;
+    let dir = tempfile::tempdir().unwrap();
+    fs::create_dir(dir.path().join("b0000")).unwrap();
+    let head = dir.path().join("b0000/BANDHEAD");
+    // Winner A: the first half of Protocol::write (exclusive create succeeded, content not yet written).
+    let mut a = fs::OpenOptions::new().write(true).create_new(true).open(&head).unwrap();
+    // Loser B: a complete create-new write through the real transport.
+    let transport = Transport::local(dir.path());
+    let b = transport
+        .write("b0000/BANDHEAD", b"{\"start_time\":2}\n", WriteMode::CreateNew)
+        .await;
+    assert!(b.is_ok(), "the loser's create-new write of a path the winner already created is not refused: {b:?}");
+    // A finishes its write: the file now holds a mixture, and both writers go on into the band.
+    a.write_all(b"{\"start_time\":1}\n").unwrap();
+    drop(a);
+    // For comparison: once the winner's content is there the same write IS refused.
+    let again = transport
+        .write("b0000/BANDHEAD", b"{\"start_time\":3}\n", WriteMode::CreateNew)
+        .await;
+    assert!(again.is_err());
+}
